@@ -294,6 +294,7 @@ def run(ctx):
                f'the {side}-multiply entry point multiplies on the other side', ps.rel, fn.lineno)
 
     _extra_rules(ctx, repo, ps, dps, mps)
+    _list_multiplication_order(ctx, repo, left_sign)
 
 
 # ---------------------------------------------------------------------------------------------------------------
@@ -701,3 +702,91 @@ def _all_terms_rule(ctx, repo):
                            'a PauliString without factors is falsy, so the identity term c*I is left out of the sum whatever its coefficient', ci.mod.rel, c.lineno)
     if n == 0:
         raise AnalysisError('C14.l: no aggregation over all terms found')
+
+
+def _list_multiplication_order(ctx, repo, left_sign):
+    """C14.m - multiplying a mutable Pauli string by a collection [A, B, C] multiplies by the product A*B*C on the requested side."""
+    import itertools
+    ctx.decided.append('C14.m MutablePauliString._imul_helper on a collection: the factors are applied so that the result is (A*B*C)*self or self*(A*B*C) - in list order - for the side the '
+                       'sign argument selects (interpreted with a recording atom helper, flat and nested lists)')
+    ctx.rule('C14.m', 'collection factor order: interpreting MutablePauliString._imul_helper with `other` a list (also nested) of one-qubit factors on the same qubit and a recording '
+             '_imul_atom_helper, the recorded (factor, side) sequence composes to list-order-product x self for the left sign and self x list-order-product for the right sign', floor=6, style='FDX')
+    mps = repo.cls('cirq.ops.pauli_string.MutablePauliString')
+    fn = repo.method(mps.qual, '_imul_helper')
+    params = [a.arg for a in fn.args.args]
+
+    class M:
+        _fdx_settable = True
+
+        def __init__(self):
+            self.coefficient = 1
+            self.word = ['S']     # the string itself, then factors to its left / right
+
+        def _imul_atom_helper(self, key, atom, sign):
+            atoms = list(atom) if isinstance(atom, tuple) and atom and atom[0] == '<word>' else [atom]
+            atoms = atoms[1:] if atoms and atoms[0] == '<word>' else atoms
+            if sign == left_sign:
+                self.word = atoms + self.word
+            else:
+                self.word = self.word + atoms
+            return 0
+
+        def items(self):
+            w = [x for x in self.word if x != 'S']
+            return [('q', tuple(['<word>'] + w))]
+
+    def run(me, other, sign, depth=0):
+        def call_hook(call, it):
+            s = ast.unparse(call.func)
+            if s == 'isinstance':
+                v = it.ev(call.args[0])
+                t = ast.unparse(call.args[1])
+                if 'Mapping' in t:
+                    return isinstance(v, (dict, M))
+                if 'PauliString' in t and 'Mapping' not in t and 'PauliSum' not in t:
+                    return isinstance(v, M)
+                if 'numbers' in t:
+                    return isinstance(v, (int, float, complex))
+                if 'Operation' in t or 'PauliSum' in t or t == 'str':
+                    return isinstance(v, str) if t == 'str' else False
+                if 'Iterable' in t:
+                    return isinstance(v, (list, tuple))
+                return NotImplemented
+            if s.endswith('_pauli_like_to_pauli_int'):
+                return it.ev(call.args[1])
+            if s == 'cast':
+                return it.ev(call.args[1])
+            if s.split('.')[-1] == 'MutablePauliString' and not call.args and not call.keywords:
+                return M()
+            if isinstance(call.func, ast.Attribute) and call.func.attr == '_imul_helper':
+                recv = it.ev(call.func.value)
+                if isinstance(recv, M) and depth < 6:
+                    return run(recv, it.ev(call.args[0]), it.ev(call.args[1]), depth + 1)
+            return NotImplemented
+
+        def attr_hook(node, it):
+            try:
+                v = it.ev(node.value)
+            except fdx.Unsupported:
+                return NotImplemented
+            if isinstance(v, M) and hasattr(v, node.attr):
+                return getattr(v, node.attr)
+            return NotImplemented
+        it = fdx.NumInterp({params[0]: me, params[1]: other, params[2]: sign}, call_hook=call_hook, attr_hook=attr_hook)
+        it.builtins.update({'iter': iter, 'reversed': reversed, 'list': list, 'tuple': tuple, 'len': len})
+        return it.call(fn)
+    A, B, C = {'q': 'A'}, {'q': 'B'}, {'q': 'C'}
+    cases = [('[A,B]', [A, B], ['A', 'B']), ('[A,B,C]', [A, B, C], ['A', 'B', 'C']), ('[[A,B],C]', [[A, B], C], ['A', 'B', 'C']), ('[A,[B,C]]', [A, [B, C]], ['A', 'B', 'C'])]
+    for label, other, flat in cases:
+        for sign in (left_sign, -left_sign):
+            me = M()
+            try:
+                res = run(me, other, sign)
+            except (fdx.Unsupported, fdx.Raised) as ex:
+                raise AnalysisError(f'cannot interpret MutablePauliString._imul_helper on a collection: {ex}')
+            want = (flat + ['S']) if sign == left_sign else (['S'] + flat)
+            ok = res is me and me.word == want
+            side = 'left' if sign == left_sign else 'right'
+            ctx.ob('C14.m', f'{mps.qual}._imul_helper:{label}:{side}', ok, '' if ok else
+                   f'{side}-multiplying S by the collection {label} must give {" ".join(want)}; the factors are applied as {" ".join(me.word)} '
+                   '(two anticommuting factors on one qubit then come out with the wrong sign)', mps.mod.rel, fn.lineno)
